@@ -10,7 +10,9 @@ OBLIGATIONS = ["route_self_zero", "route_specific_else_default", "hosting_specif
 N_QUICK, N_THOROUGH = 400, 6000
 RULE = ("seeded random AgentDef arguments (routes/hosting tables over a pool of 6 names, defaults, "
         "extra attributes) probed on every pool name, and create_agents calls with list / range / "
-        "tuple-of-lists indexes; non-trivial = at least one specific route or hosting cost or "
+        "tuple-of-lists indexes; 4/7 of the definitions are probed after a copy / deepcopy / pickle / "
+        "simple_repr round trip (which must answer as the original), extra attribute names include "
+        "underscore-prefixed ones; non-trivial = at least one specific route or hosting cost or "
         "attribute, or a mass creation of >= 2 agents; distinct = distinct case JSON")
 MODELLED = ("AgentDef.route/hosting_cost/__getattr__ and create_agents are modelled and all "
             "statements of C31 are theorems about the model (Prop_C31.v); tied to the code by this run")
@@ -28,7 +30,8 @@ META = dict(
 )
 
 NAMES = ["a1", "a2", "a3", "c1", "c2", "x_y"]
-ATTRS = ["capacity", "foo", "pref", "default_hosting_costs"]
+ATTRS = ["capacity", "foo", "pref", "_grp", "__w", "default_hosting_costs"]
+VIAS = ["direct", "direct", "direct", "copy", "deepcopy", "pickle", "repr"]
 
 
 def _table(rng, pool):
@@ -43,8 +46,8 @@ def gen(rng, n, tier):
                      routes=_table(rng, NAMES) if rng.random() < 0.8 else None,
                      default_hosting=rng.randint(0, 9),
                      hosting=_table(rng, NAMES) if rng.random() < 0.8 else None,
-                     attrs={k: rng.randint(0, 99) for k in ATTRS[:3] if rng.random() < 0.4},
-                     use_defaults=rng.random() < 0.15)
+                     attrs={k: rng.randint(0, 99) for k in ATTRS[:5] if rng.random() < 0.4},
+                     use_defaults=rng.random() < 0.15, via=rng.choice(VIAS))
         else:
             kind = rng.choice(["list", "range", "tuple", "strlist"])
             if kind == "list":
@@ -64,8 +67,8 @@ def gen(rng, n, tier):
                      routes=_table(rng, NAMES) if rng.random() < 0.6 else None,
                      default_hosting=rng.randint(0, 9),
                      hosting=_table(rng, NAMES) if rng.random() < 0.6 else None,
-                     attrs={k: rng.randint(0, 99) for k in ATTRS[:3] if rng.random() < 0.4},
-                     use_defaults=rng.random() < 0.15)
+                     attrs={k: rng.randint(0, 99) for k in ATTRS[:5] if rng.random() < 0.4},
+                     use_defaults=rng.random() < 0.15, via=rng.choice(VIAS))
         cases.append(c)
     return cases
 
@@ -75,6 +78,25 @@ def _fields(a):
     return dict(name=a.name, default_route=a.default_route, routes=list(a.routes.items()),
                 default_hosting=a.default_hosting_cost, hosting=list(a.hosting_costs.items()),
                 attrs=sorted(a.extra_attr().items()))
+
+
+def _via(a, via):
+    """the agent definition as the rest of the library gets it: directly, or after the copy / pickle / wire
+    round trip that process mode, deepcopy-ing callers and the orchestrator's deploy messages apply to it.
+    C31 states the behaviour of the definition, so every such copy must answer as the original."""
+    if via == "copy":
+        import copy
+        return copy.copy(a)
+    if via == "deepcopy":
+        import copy
+        return copy.deepcopy(a)
+    if via == "pickle":
+        import pickle
+        return pickle.loads(pickle.dumps(a))
+    if via == "repr":
+        from pydcop.utils.simple_repr import simple_repr, from_repr
+        return from_repr(simple_repr(a))
+    return a
 
 
 def _build_kwargs(c):
@@ -94,7 +116,7 @@ def run_impl(c):
     if c["kind"] == "probe":
         if not c["use_defaults"]:
             kw["default_hosting_cost"] = c["default_hosting"]
-        a = AgentDef(c["name"], **kw, **c["attrs"])
+        a = _via(AgentDef(c["name"], **kw, **c["attrs"]), c.get("via", "direct"))
         routes = [(o, a.route(o)) for o in NAMES]
         hosting = [(o, a.hosting_cost(o)) for o in NAMES]
         attrs = []
@@ -118,6 +140,7 @@ def run_impl(c):
         return dict(error=type(e).__name__)
     items = []
     for k, a in d.items():
+        a = _via(a, c.get("via", "direct"))
         # probe each created agent and the individually built twin (property oracle input)
         items.append(dict(key=list(k) if isinstance(k, tuple) else k, fields=_fields(a),
                           routes=[(o, a.route(o)) for o in NAMES],
@@ -207,6 +230,8 @@ def histogram(cases, obs):
     for c in cases:
         k = c["kind"] + ("/" + c["idx_kind"] if c["kind"] == "create" else "")
         h[k] = h.get(k, 0) + 1
+        k = "via/" + c.get("via", "direct")
+        h[k] = h.get(k, 0) + 1
     return h
 
 
@@ -215,6 +240,8 @@ def classify(c, o, msg):
 
 
 def shrink_candidates(c):
+    if c.get("via", "direct") != "direct":
+        d = dict(c); d["via"] = "direct"; yield d
     for k in ("routes", "hosting"):
         if c.get(k):
             for key in list(c[k]):
